@@ -18,6 +18,7 @@ R2: one witness history per (state, mutating call) edge replayed on a real parse
 """
 import json
 
+import c06
 import semcmp
 import semlib
 import vlib
@@ -139,7 +140,11 @@ def run(ck):
         v3 = via[p["id"]]
         # (Clone copies the globals with Object.Copy, which turns an immutable input into a mutable one: a program failing on such an
         # input may end differently in the clone - that is not a matter of error positions, so only equal error kinds are compared)
-        if len(ms) == 1 and v3.get("k") == "runtime_error" and v3.get("kind") == r["kind"] and v3.get("msg") != r.get("msg"):
+        # - a program with an immutable container among its inputs is therefore not compared on this path at all; nor is a program whose
+        # failure depends on the iteration order of a map (two real runs may fail on another element first)
+        imm_input = '"imm": true' in json.dumps(p.get("inputs", []))
+        odep = c06.order_dependent(p)
+        if len(ms) == 1 and not imm_input and not odep and v3.get("k") == "runtime_error" and v3.get("kind") == r["kind"] and v3.get("msg") != r.get("msg"):
             ck.violation("api-path-pos", "the same failure is reported differently after Clone + ReplaceBuiltinModule:\n%s\n---\n%s\n%s" % (
                 r.get("msg"), v3.get("msg"), p["src"]), {"program": p, "plain": r, "via_clone": v3})
             continue
@@ -158,7 +163,7 @@ def run(ck):
                     {"program": p, "plain": r, "wrapped": badw[1]})
                 continue
         t = twin[p["id"]]
-        if len(ms) == 1 and t.get("msg") != r.get("msg"):
+        if len(ms) == 1 and not c06.order_dependent(p) and t.get("msg") != r.get("msg"):
             ck.violation("twin-pos", "optimized and unoptimized code report different errors/positions:\n%s\n---\n%s\n%s" % (
                 r.get("msg"), t.get("msg"), p["src"]), {"program": p, "opt": r, "unopt": t})
             continue
